@@ -1,17 +1,18 @@
 #!/bin/bash
 # ./seedrun.sh <seed-dir-id> <module(client|server)> <pkg-dir-rel-to-module> <demo-file> <run-regex> <check-ids...>
 # Confirms a seeded change in its scratch worktree /tmp/seed-<id> (existing tests pass, demo
-# fails with / passes without the change), stores it under /verif/seeded/<id>/ and runs the
+# fails with / passes without the change), stores it under $V/seeded/<id>/ and runs the
 # named checks against it: the change is applied to /repo only while the worker binaries are
 # built (under the exclusive /repo build lock), undone straight afterwards; the checks then
 # run from those binaries and write their evidence / replays to a scratch directory, never to
 # /verif/evidence.
 # With VERIF_SEED_ONLY_CHECKS=1 the confirmation part is skipped (re-run of a stored seed).
+V="$(cd "$(dirname "$0")" && pwd)"   # the /verif tree these scripts belong to (also a snapshot of it)
 set -u
 export GOFLAGS=-mod=mod GOPROXY=off GOSUMDB=off GOTOOLCHAIN=local
 ID="$1"; MOD="$2"; PKG="$3"; DEMO="$4"; RX="$5"; shift 5
 W=/tmp/seed-$ID
-OUT=/verif/seeded/$ID
+OUT=$V/seeded/$ID
 TIER="${VERIF_SEED_TIER:-quick}"
 SCR=/var/tmp/verif-seedrun/$ID
 LOCK=/var/tmp/verif-repo.lock
@@ -47,7 +48,7 @@ built=no
   git apply "$PATCH"
   rc=0
   for chk in "$@"; do
-    (cd /verif && VERIF_REPO_LOCKED=1 VERIF_BIN_DIR="$SCR/bin" ./check $chk --build-only) || rc=4
+    (cd "$V" && VERIF_REPO_LOCKED=1 VERIF_BIN_DIR="$SCR/bin" ./check $chk --build-only) || rc=4
   done
   git checkout -q -- . ; git clean -fdq
   exit $rc
@@ -55,7 +56,7 @@ built=no
 brc=$?
 if [ $brc -eq 0 ]; then
   for chk in "$@"; do
-    (cd /verif && VERIF_SKIP_BUILD=1 VERIF_BIN_DIR="$SCR/bin" VERIF_OUT_DIR="$SCR" ./check $chk $TIER > "$SCR/$chk.out" 2>&1); rc=$?
+    (cd "$V" && VERIF_SKIP_BUILD=1 VERIF_BIN_DIR="$SCR/bin" VERIF_OUT_DIR="$SCR" ./check $chk $TIER > "$SCR/$chk.out" 2>&1); rc=$?
     sigs=$(grep "signature-tally" "$SCR/$chk.out" | head -4 | sed 's/ *signature-tally: *//' | tr '\n' ';' | cut -c1-300)
     echo "[$ID] check $chk $TIER -> exit $rc  $sigs"
     results="$results $chk=$rc"
